@@ -1045,3 +1045,143 @@ def rule_DEAD1(ctx, files=None):
                 j = nxt if jn['k'] == 'IfStmt' else -1
     res.analysed.update({'else_if_arms_judged': narm})
     return res, narm
+
+
+# ------------------------------------------------------------------ DS1: an accumulated contribution that nothing reads
+def _ds1_function(f):
+    """[(store node, variable)] for compound updates (x += e, x -= e, x *= e, x /= e, x = x op e) of scalar locals whose
+    result is read on no path (backward liveness over clang's CFG, sub-expressions are CFG elements)."""
+    blocks = {b['id']: b for b in f.cfg['blocks']}
+    par = {}
+    for i, n in f.all_nodes():
+        for c in n.get('ch', []):
+            if isinstance(c, int) and c >= 0:
+                par[c] = i
+    locs = set()
+    for i, n in f.all_nodes():
+        if n['k'] == 'DeclStmt':
+            for d in n['decls']:
+                t = d.get('t', '').replace('const ', '').strip()
+                if d.get('pk') == 'v' and not d.get('static_local') and \
+                        (t in ('double', 'float', 'long double', 'int', 'unsigned int', 'long', 'long long', 'bool',
+                               'unsigned long', 'unsigned long long') or t.endswith('real')):
+                    locs.add(d['d'])
+    for p_ in f.params:
+        if p_['pk'] == 'v' and (p_.get('float') or p_.get('int')):
+            locs.add(p_['d'])
+    # variables whose storage is visible elsewhere are not judged
+    escaped = set()
+    for i, n in f.all_nodes():
+        if (n['k'] == 'UnaryOperator' and n.get('op') == '&') or n['k'] == 'LambdaExpr':
+            for j in f.walk(i):
+                m = f.nodes[j]
+                if m['k'] == 'DeclRefExpr':
+                    escaped.add(m.get('d'))
+        if n['k'] in ('CallExpr', 'CXXMemberCallExpr', 'CXXOperatorCallExpr', 'CXXConstructExpr'):
+            ce = n.get('callee') or {}
+            pk = ce.get('pk', [])
+            off = 1 if (n['k'] == 'CXXOperatorCallExpr' and ce.get('method')) else 0
+            for ai, a in enumerate(n.get('args', [])[off:]):
+                kind = pk[ai] if ai < len(pk) else 'r'
+                if kind != 'v':
+                    m = f.nodes[f.strip_casts(a)]
+                    if m['k'] == 'DeclRefExpr':
+                        escaped.add(m.get('d'))
+
+    def lhs_var(nid):
+        l = f.nodes[f.strip_casts(nid)]
+        while l['k'] == 'ParenExpr' and l['ch']:
+            l = f.nodes[f.strip_casts(l['ch'][0])]
+        return l.get('d') if l['k'] == 'DeclRefExpr' and l.get('d') in locs else None
+
+    def store(e):
+        """(variable, is an update of its own value, kills) for a store element."""
+        n = f.nodes[e]
+        if n['k'] == 'CompoundAssignOperator':
+            d = lhs_var(n['ch'][0])
+            return (d, True, False) if d else None
+        if n['k'] == 'BinaryOperator' and n.get('op') == '=':
+            d = lhs_var(n['ch'][0])
+            if not d:
+                return None
+            rn = f.nodes[f.strip_casts(n['ch'][1])]
+            own = rn['k'] == 'BinaryOperator' and rn.get('op') in ('+', '-', '*', '/') and \
+                any(f.nodes[f.strip_casts(c)]['k'] == 'DeclRefExpr' and f.nodes[f.strip_casts(c)].get('d') == d for c in rn['ch'])
+            return (d, own, True)
+        return None
+
+    def transfer(b, out, report=None):
+        live = set(out)
+        for e in reversed(blocks[b]['els']):
+            if not isinstance(e, int):
+                continue
+            n = f.nodes[e]
+            st = store(e)
+            if st:
+                d, own, kills = st
+                if report is not None and own and d not in live and d not in escaped:
+                    report.append((e, d))
+                if kills:
+                    live.discard(d)
+            elif n['k'] == 'DeclRefExpr' and n.get('d') in locs:
+                p_ = par.get(e)
+                while p_ is not None and f.nodes[p_]['k'] == 'ParenExpr':
+                    p_ = par.get(p_)
+                pn = f.nodes[p_] if p_ is not None else None
+                if not (pn is not None and pn['k'] == 'BinaryOperator' and pn.get('op') == '=' and
+                        f.strip_casts(pn['ch'][0]) == e):
+                    live.add(n['d'])
+            elif n['k'] == 'DeclStmt':
+                for d in n['decls']:
+                    live.discard(d['d'])
+        return live
+    live_in = {b: set() for b in blocks}
+    changed = True
+    while changed:
+        changed = False
+        for b in blocks:
+            out = set()
+            for s_ in blocks[b]['succ']:
+                if s_:
+                    out |= live_in[s_['b']]
+            li = transfer(b, out)
+            if li != live_in[b]:
+                live_in[b] = li
+                changed = True
+    rep = []
+    nstores = 0
+    for b in blocks:
+        out = set()
+        for s_ in blocks[b]['succ']:
+            if s_:
+                out |= live_in[s_['b']]
+        transfer(b, out, rep)
+        nstores += sum(1 for e in blocks[b]['els'] if isinstance(e, int) and (store(e) or (None, False))[1])
+    return rep, nstores
+
+
+def rule_DS1(ctx, files=None):
+    res = RuleResult('DS1', 'no accumulated contribution is dropped: the result of an update of a scalar local by its own value '
+                            '(x += e, x -= e, x *= e, x = x + e ...) is read on some path before x is overwritten or goes out of '
+                            'scope (an update moved below the statements that consume it is dead)')
+    nst = 0
+    seen = set()
+    for f in sorted(ctx.lib_fns(), key=lambda x: (x.file, x.line)):
+        if not _in(f, files) or f.d.get('body', -1) < 0 or not f.cfg:
+            continue
+        rep, n = _ds1_function(f)
+        nst += n
+        res.obligations += n
+        res.discharged += n
+        for e, d in rep:
+            key = (f.loc(e), f.nodes[e].get('c', 0), d)
+            if key in seen:
+                res.discharged -= 1 if False else 0
+                continue
+            seen.add(key)
+            res.discharged -= 1
+            res.fail(f.q, '%s@%s' % (d.split('@')[0], f.src_text(e)[:30].strip()), f.loc(e),
+                     'the value that `%s` gives %s is read on no path: it is overwritten or goes out of scope first, so the '
+                     'contribution is dropped' % (f.src_text(e)[:60].replace('\n', ' '), d.split('@')[0]))
+    res.analysed.update({'own_value_updates_of_scalar_locals': nst})
+    return res, nst
